@@ -37,6 +37,7 @@ ITEMS = [
          ],
          attrs=[NOISO],
          hints=[(r'let mut prefix = Vec::new\(\);', 'let ghost all = it.remaining();', 'before'),
+                (r'let mut acc = [^;]+;', 'let ghost _ta: VSeq<Vec<T>> = acc@; let ghost _tp: VSeq<T> = prefix@;', 'after'),
                 ('loop1:body_start', ITEM_K % 'prefix@.len()', 'at'),
                 (r'Ok\(acc\)', 'proof { assert(prefix@.len() == all.len()); assert(all.take(all.len() as int) =~= all); }', 'before')],
          loops={1: dict(invariant=[
@@ -52,6 +53,7 @@ ITEMS = [
          ],
          attrs=[NOISO],
          hints=[(r'let mut prefix = Vec::new\(\);', 'let ghost all = it.remaining();', 'before'),
+                (r'let mut acc = [^;]+;', 'let ghost _ta: VSeq<Vec<T>> = acc@; let ghost _tp: VSeq<T> = prefix@;', 'after'),
                 ('loop1:body_start', ITEM_K % 'prefix@.len()', 'at'),
                 (r'Ok\(acc\)', 'proof { assert(prefix@.len() == all.len()); assert(all.take(all.len() as int) =~= all); }', 'before')],
          loops={1: dict(invariant=[
